@@ -6,6 +6,15 @@ computed by the data-model protocol in TLA+.  TLC enumerates the statement gramm
 every outcome.  spec -> CPython: each statement is executed in isolation and must behave as the
 spec says (clause `oracle`, exit 2 otherwise).  spec -> pytype: statements are batched into
 straight-line modules, one per line; code -> spec: TLC (TraceC14.tla) judges the flags.
+
+History family (OpDispatch.tla actions Bind / Rebind / Use): a location - an instance attribute
+first assigned in __init__, or a module-level name - is assigned up to three operand kinds in
+turn and read as an operand after every assignment; the spec's operand kind is the last assigned
+one.  The plans are partitioned by the spec into HSLICES fixed slices: quick explores the slice
+VERIF_SEED mod HSLICES, thorough all of them (so a quick run of any seed replays a subset of what
+a thorough run replays).  One program per (location kind, plan); CPython executes it line by
+line, pytype analyses it inside a batch module, TraceC14.tla walks the lines in program order
+advancing the spec state with the spec's own actions and judges every line both ways.
 """
 import argparse
 import json
@@ -139,6 +148,109 @@ def analyse_chunk(src):
   return (r["outcome"], r["errors"], r["exc"])
 
 
+HSLICES = 16
+BOX_ATTR = "v"
+
+
+def box_classes():
+  lines = []
+  for n in list(BUILTINS) + USERS:
+    lines += ["class Box_%s:" % n, "  def __init__(self):", "    self.%s = %s" % (BOX_ATTR, operand_src(n))]
+  return lines
+
+
+def loc_src(loc, n):
+  return "b%d.%s" % (n, BOX_ATTR) if loc == "attr" else "g%d" % n
+
+
+def template_src(t, where):
+  """Source of a statement template; "@" is the read of the location `where`."""
+  kind, op, l, r = t
+  a = where if l == "@" else "v_" + l
+  b = where if r == "@" else "v_" + r
+  if kind == "bin":
+    return "%s %s %s" % (a, op, b)
+  if kind == "unary":
+    return "-%s" % a
+  if kind == "sub":
+    return "%s[%s]" % (a, SUB_INDEX[r])
+  if kind == "call":
+    return "%s()" % a
+  raise ValueError(t)
+
+
+def build_programs(hcases):
+  """Group the exported Use states by (loc, plan) into programs = lists of events in program
+  order: bind, reads after it, rebind, reads after it, ..."""
+  groups = {}
+  for c in hcases:
+    groups.setdefault((c["loc"], tuple(c["plan"])), []).append(c)
+  progs = []
+  for n, key in enumerate(sorted(groups)):
+    loc, plan = key
+    where = loc_src(loc, n)
+    events = []
+    for pos in range(1, len(plan) + 1):
+      k = plan[pos - 1]
+      if pos == 1:
+        src = "b%d = Box_%s()" % (n, k) if loc == "attr" else "%s = %s" % (where, operand_src(k))
+      else:
+        src = "%s = %s" % (where, operand_src(k))
+      events.append({"ev": "bind" if pos == 1 else "rebind", "loc": loc, "k": k,
+                     "s": ["assign", "=", "@", k], "src": src, "h": list(plan[:pos - 1])})
+      uses = sorted((c for c in groups[key] if len(c["h"]) == pos), key=lambda c: json.dumps(c["s"]))
+      for j, c in enumerate(uses):
+        common.require(list(c["h"]) == list(plan[:pos]), "history of an exported read is not a prefix")
+        events.append({"ev": "use", "loc": loc, "k": "", "s": c["s"], "h": list(c["h"]),
+                       "src": "x%d_%d_%d = %s" % (n, pos, j, template_src(c["s"], where)),
+                       "spec": c})
+    for e in events:
+      e["prog"] = len(progs)
+    progs.append({"loc": loc, "plan": list(plan), "slice": groups[key][0]["slice"], "events": events})
+  return progs
+
+
+def run_program(events, env):
+  """CPython executes the lines of one program in order in one namespace."""
+  ns = dict(env)
+  for e in events:
+    try:
+      exec(compile(e["src"], "<prog>", "exec"), ns)  # pylint: disable=exec-used
+      e["py"] = "ok"
+    except TypeError:
+      e["py"] = "TypeError"
+    except AttributeError:
+      e["py"] = "AttributeError"
+    except Exception:  # pylint: disable=broad-except
+      e["py"] = "other"
+
+
+def shape_of(s):
+  kind, op, l, r = s
+  if kind == "bin":
+    return "%s %s %s" % (l, op, r)
+  if kind in ("attr", "meth"):
+    return "%s.%s%s" % (l, op, "()" if kind == "meth" else "")
+  if kind == "sub":
+    return "%s[%s]" % (l, r)
+  return "%s%s" % (op if kind == "unary" else "", l) + ("()" if kind == "call" else "")
+
+
+def analyse_modules(jobs):
+  """jobs: list of (source, {line: event}); fills event["names"] (error names on its line)."""
+  results = pyt.batch(analyse_chunk, [j[0] for j in jobs], procs=8, chunksize=1)
+  for (src, where), (outcome, errors, exc) in zip(jobs, results):
+    if outcome != "result":
+      raise common.Machinery("pytype failed on a C14 module: %s %s" % (outcome, exc[-600:]))
+    for name, line, msg in errors:
+      if line in where:
+        if name not in where[line]["names"]:
+          where[line]["names"].append(name)
+      else:
+        raise common.Machinery("pytype reports an error outside the judged lines: line %s %s %s\n%s" % (
+            line, name, msg[:200], src.split("\n")[line - 1] if 0 < line <= src.count("\n") else ""))
+
+
 def main():
   ap = argparse.ArgumentParser()
   ap.add_argument("--tier", default="quick")
@@ -151,84 +263,184 @@ def main():
   import atexit
   import shutil
   atexit.register(shutil.rmtree, tdir, True)
-  r = tlc.run("OpDispatch", "SPECIFICATION Spec\nCONSTANT Export = TRUE\n"
-              "INVARIANT Total\nINVARIANT ReflectedOnlyAfterDecline\nINVARIANT ExportInv\n",
-              workers=1, timeout=1800, env={"OP_TABLES": tpath})
+  want = None
+  if a.replay:
+    with open(a.replay) as f:
+      want = json.load(f)["case"]
+  if want is not None and want.get("fam") == "hist":
+    hslice = want["slice"]
+  elif want is not None:
+    hslice = None                       # a base statement: no history plan is needed
+  else:
+    hslice = HSLICES if run.tier == "thorough" else run.seed % HSLICES
+  consts = "CONSTANTS Export = %%s\nHSlices = %d\nHSlice = %d\n" % (
+      HSLICES, hslice if hslice is not None else 0)
+  r = tlc.run("OpDispatch", "SPECIFICATION Spec\n" + consts % "TRUE" +
+              "INVARIANT Total\nINVARIANT ReflectedOnlyAfterDecline\nINVARIANT HistoryShape\n"
+              "INVARIANT LastWriteWins\nINVARIANT ExportInv\n",
+              workers=1, timeout=3000, env={"OP_TABLES": tpath})
   if r.violated:
     raise common.Machinery("OpDispatch.tla: %s violated\n%s" % (r.violated, r.error_trace[:2000]))
   run.put("states", r.distinct)
   run.put("transitions", r.generated)
-  stmts = sorted(r.cases, key=lambda c: json.dumps(c["s"]))
+  run.put("history_slice", "all" if hslice == HSLICES else hslice)
+  stmts = sorted((c for c in r.cases if c["fam"] == "base"), key=lambda c: json.dumps(c["s"]))
+  hcases = [c for c in r.cases if c["fam"] == "hist"]
   common.require(len(stmts) > 1000, "only %d statements" % len(stmts))
-  if a.replay:
-    with open(a.replay) as f:
-      want = json.load(f)["case"]["s"]
-    stmts = [c for c in stmts if c["s"] == want]
+  progs = allprogs = build_programs(hcases)
+  if want is not None:
+    if want.get("fam") == "hist":
+      progs = [p for p in progs if p["loc"] == want["loc"] and p["plan"] == want["plan"]]
+      common.require(len(progs) == 1, "the replayed plan is not in the model")
+      need = [e["spec"]["rs"] for e in progs[0]["events"] if e["ev"] == "use"]
+      stmts = [c for c in stmts if c["s"] in need]
+    else:
+      progs = []
+      stmts = [c for c in stmts if c["s"] == want["s"]]
   pre = prelude()
-  # spec -> CPython
+  # ---- base family.  spec -> CPython: every statement in isolation
+  base_events = []
   for c in stmts:
-    c["py"] = cpython_outcome(stmt_src(c["s"]), env)
+    base_events.append({"ev": "base", "loc": "", "k": "", "s": c["s"], "h": [], "spec": c,
+                        "src": stmt_src(c["s"]), "py": cpython_outcome(stmt_src(c["s"]), env)})
   # spec -> pytype: chunks of statements, one per line
   chunk = 120
   jobs = []
-  for off in range(0, len(stmts), chunk):
-    part = stmts[off:off + chunk]
+  for off in range(0, len(base_events), chunk):
     lines = list(pre)
     where = {}
-    for k, c in enumerate(part):
-      lines.append("x%d = %s" % (k, stmt_src(c["s"])) if c["s"][0] != "call" or True else "")
-      where[len(lines)] = off + k
+    for k, e in enumerate(base_events[off:off + chunk]):
+      lines.append("x%d = %s" % (k, e["src"]))
+      where[len(lines)] = e
     jobs.append(("\n".join(lines) + "\n", where))
-  results = pyt.batch(analyse_chunk, [j[0] for j in jobs], procs=8, chunksize=1)
-  flagged = {}
-  names = {}
-  for (src, where), (outcome, errors, exc) in zip(jobs, results):
-    if outcome != "result":
-      raise common.Machinery("pytype failed on a C14 module: %s %s" % (outcome, exc[-600:]))
-    for name, line, msg in errors:
-      if line in where:
-        flagged[where[line]] = name
-        names[name] = names.get(name, 0) + 1
-      else:
-        raise common.Machinery("pytype reports an error outside the statements: line %s %s %s" % (
-            line, name, msg[:200]))
-  cases = [{"s": c["s"], "py": c["py"], "flagged": k in flagged} for k, c in enumerate(stmts)]
+  # ---- history family.  spec -> CPython: every program line by line
+  pre_h = pre + box_classes()
+  lines, where, nprog = list(pre_h), {}, 0
+  for p in progs:
+    run_program(p["events"], env)
+    for e in p["events"]:
+      lines.append(e["src"])
+      where[len(lines)] = e
+    nprog += 1
+    if len(lines) - len(pre_h) >= 300:
+      jobs.append(("\n".join(lines) + "\n", where))
+      lines, where = list(pre_h), {}
+  if where:
+    jobs.append(("\n".join(lines) + "\n", where))
+  hist_events = [e for p in progs for e in p["events"]]
+  events = base_events + hist_events
+  for e in events:
+    e["names"] = []
+  analyse_modules(jobs)
+  base_flag = {tuple(e["s"]): bool(e["names"]) for e in base_events}
+  cases = []
+  for e in events:
+    b = ""
+    if e["ev"] == "use":
+      f = base_flag.get(tuple(e["spec"]["rs"]))
+      b = "" if f is None else ("flagged" if f else "clean")
+    cases.append({"ev": e["ev"], "loc": e["loc"], "k": e["k"], "s": e["s"], "py": e["py"],
+                  "flagged": bool(e["names"]), "names": sorted(e["names"]), "base": b})
   nv, bad, rr = tlc.validate_cases(
-      "TraceC14", cases, cfg="INIT TInit\nNEXT TNext\nCONSTANT Export = FALSE\n"
-      "INVARIANT Ok\nPOSTCONDITION Done\n", timeout=1800, env={"OP_TABLES": tpath})
+      "TraceC14", cases, cfg="INIT TInit\nNEXT TNext\n" + consts % "FALSE" +
+      "INVARIANT Ok\nPOSTCONDITION Done\n", timeout=3000, env={"OP_TABLES": tpath})
   common.require(bad is None, "TraceC14 invariant cannot fail")
+  names = {}
+  for e in events:
+    for n in e["names"]:
+      names[n] = names.get(n, 0) + 1
+  raising = ("TypeError", "AttributeError")
+  uses = [e for e in hist_events if e["ev"] == "use"]
   run.put("traces_validated_against_impl", nv)
   run.put("evaluations", nv)
   run.put("flag_names", names)
-  run.put("statements_raising", sum(1 for c in cases if c["py"] in ("TypeError", "AttributeError")))
-  run.put("statements_flagged", len(flagged))
-  run.put("advertised", sum(1 for c in stmts if c["adv"]))
-  run.put("distinct_nontrivial", sum(1 for c in cases if c["py"] != "ok"))
-  run.put("rule", "one case = one statement of the grammar; non-trivial = raises under CPython")
+  run.put("statements_raising", sum(1 for e in base_events if e["py"] in raising))
+  run.put("statements_flagged", sum(1 for e in base_events if e["names"]))
+  run.put("advertised", sum(1 for e in base_events if e["spec"]["adv"]))
+  run.put("history_programs", len(progs))
+  run.put("history_assignments", len(hist_events) - len(uses))
+  run.put("history_reads", len(uses))
+  run.put("history_reads_raising", sum(1 for e in uses if e["py"] in raising))
+  run.put("history_reads_flagged", sum(1 for e in uses if e["names"]))
+  run.put("history_reads_between_assignments", sum(1 for e in uses if len(e["h"]) < len(e["spec"]["plan"])))
+  run.put("history_reads_after_two_rebinds", sum(1 for e in uses if len(e["h"]) == 3))
+  for loc in ("attr", "name"):
+    mine = [e for e in uses if e["loc"] == loc and e["spec"]["sens"]]
+    # the overwritten kind supports the statement, the current one does not (and the mistake is
+    # advertised): pytype must flag;  the other way round: pytype must not flag
+    run.put("history_%s_must_flag_despite_stale_ok" % loc,
+            sum(1 for e in mine if e["spec"]["adv"] and e["py"] in raising))
+    run.put("history_%s_must_not_flag_despite_stale_error" % loc,
+            sum(1 for e in mine if e["py"] not in raising))
+    for kind in ("bin", "unary", "sub", "call"):
+      run.put("history_%s_sensitive_%s" % (loc, kind),
+              sum(1 for e in mine if e["s"][0] == kind and e["spec"]["adv"]))
+  run.put("distinct_nontrivial", sum(1 for e in events if e["py"] != "ok"))
+  run.put("rule", "one case = one line (statement of the grammar, or assignment / read of a location "
+          "with a history); non-trivial = raises under CPython")
   run.put("exhaustive", True)
-  common.require(run.cov["statements_raising"] > 200 and run.cov["statements_flagged"] > 200,
-                 "vacuity")
-  run.sample({"stmt": stmt_src(cases[len(cases) // 3]["s"]), "py": cases[len(cases) // 3]["py"],
-              "flagged": cases[len(cases) // 3]["flagged"]})
+  if want is None:
+    common.require(run.cov["statements_raising"] > 200 and run.cov["statements_flagged"] > 200,
+                   "vacuity")
+    common.require(run.cov["history_programs"] >= 60 and run.cov["history_reads"] >= 2000
+                   and run.cov["history_reads_flagged"] >= 500
+                   and run.cov["history_reads_between_assignments"] >= 100
+                   and run.cov["history_reads_after_two_rebinds"] >= 100,
+                   "vacuity: history family not exercised: %s" % {
+                       k: v for k, v in run.cov.items() if k.startswith("history_")})
+    for loc in ("attr", "name"):
+      common.require(run.cov["history_%s_must_flag_despite_stale_ok" % loc] >= 100
+                     and run.cov["history_%s_must_not_flag_despite_stale_error" % loc] >= 100
+                     and all(run.cov["history_%s_sensitive_%s" % (loc, k)] >= 3
+                             for k in ("bin", "unary", "sub", "call")),
+                     "vacuity: history family (%s) has too few reads that tell the current kind from an "
+                     "overwritten one: %s" % (loc, {k: v for k, v in run.cov.items()
+                                                   if k.startswith("history_" + loc)}))
+  if base_events:
+    e = base_events[len(base_events) // 3]
+    run.sample({"stmt": e["src"], "py": e["py"], "flagged": bool(e["names"])})
+  for p in progs[len(progs) // 3:len(progs) // 3 + 1]:
+    run.sample({"program": [e["src"] for e in p["events"]][:12], "py": [e["py"] for e in p["events"]][:12],
+                "flagged": [bool(e["names"]) for e in p["events"]][:12]})
   for rec in tlc.parse_cases(rr.out, "BAD"):
+    e = events[rec["i"] - 1]
     c = cases[rec["i"] - 1]
+    said = "reports [%s]" % ", ".join(c["names"]) if c["flagged"] else "reports nothing"
     for f in rec["fails"]:
-      if f == "oracle":
-        raise common.Machinery("spec/CPython disagree on %s: CPython %s" % (stmt_src(c["s"]), c["py"]))
-      kind, op, l, r = c["s"]
-      if kind == "bin":
-        shape = "%s %s %s" % (l, op, r)
-      elif kind in ("attr", "meth"):
-        shape = "%s.%s%s" % (l, op, "()" if kind == "meth" else "")
-      elif kind == "sub":
-        shape = "%s[%s]" % (l, r)
-      else:
-        shape = "%s%s" % (op if kind == "unary" else "", l) + ("()" if kind == "call" else "")
-      run.violation("C14:%s:%s" % (f, shape),
-                    "%s: `%s` %s under CPython, pytype %s" % (
-                        f, stmt_src(c["s"]).replace("v_", ""), c["py"],
-                        "reports [%s]" % flagged.get(rec["i"] - 1) if c["flagged"] else "reports nothing"),
-                    {"s": c["s"], "py": c["py"], "flagged": c["flagged"]})
+      if f in ("oracle", "not-a-behaviour"):
+        raise common.Machinery("%s: %s `%s` history %s: CPython %s" % (
+            f, e["ev"], e["src"], e["h"], e["py"]))
+      if e["ev"] == "base":
+        run.violation("C14:%s:%s" % (f, shape_of(e["s"])),
+                      "%s: `%s` %s under CPython, pytype %s" % (
+                          f, e["src"].replace("v_", ""), e["py"], said),
+                      {"s": e["s"], "py": e["py"], "flagged": c["flagged"], "names": c["names"]})
+        continue
+      payload = {"fam": "hist", "loc": e["loc"], "h": rec["h"], "s": e["s"], "py": e["py"],
+                 "flagged": c["flagged"], "names": c["names"], "line": e["src"]}
+      p = allprogs[e["prog"]]
+      payload.update(plan=p["plan"], slice=p["slice"], program=[])
+      for x in p["events"]:
+        if x["ev"] != "use" or x is e:
+          payload["program"].append(x["src"])
+        if x is e:
+          break
+      told = "%s assigned %s in turn, then `%s`" % (
+          "an instance attribute (first in __init__)" if e["loc"] == "attr" else "a module-level name",
+          " -> ".join(rec["h"]), e["src"].split(" = ", 1)[-1].replace("v_", ""))
+      if e["ev"] != "use":
+        run.violation("C14:%s:%s:%s" % (f, e["loc"], e["k"]),
+                      "%s: %s: the assignment `%s` is flagged, pytype %s" % (f, told, e["src"], said),
+                      payload)
+        continue
+      shape = shape_of(e["spec"]["rs"])
+      key = "C14:%s:%s" % (f, shape) if not f.endswith(("-stale", "-hist")) else \
+          "C14:%s:%s:%s" % (f, e["loc"], shape)
+      why = {"-stale": " (an overwritten value of the location explains pytype's answer; the same "
+                       "statement on a literal operand is judged correctly)",
+             "-hist": " (the same statement on a literal operand is judged correctly)"}
+      run.violation(key, "%s: %s (%s) %s under CPython, pytype %s%s" % (
+          f, told, shape, e["py"], said, "".join(v for k, v in why.items() if f.endswith(k))), payload)
   return run.finish()
 
 
